@@ -33,6 +33,26 @@ class StandIn:
         self.coordinates = np.asarray(coords, dtype=float)
 
 
+# dtype of the vertex coordinates (spec/IntersectOps.tla CoordTypes)
+DTYPES = ["int8", "int16", "int32", "int64", "uint8", "uint16", "uint32", "uint64", "float16", "float32", "float64"]
+
+
+def as_dtype(values, dtype):
+    """the numbers as an array of the given dtype - every one exactly representable in it"""
+    ref = np.asarray(values, dtype=float)
+    arr = np.ascontiguousarray(ref).astype(dtype)
+    if not np.array_equal(arr.astype(float), ref):
+        raise Machinery(f"coordinates {ref.ravel()[:6]} are not representable as {dtype}")
+    return arr
+
+
+def stand_in(coords, dtype=None):
+    obj = StandIn(coords)
+    if dtype is not None:
+        obj.coordinates = as_dtype(coords, dtype)
+    return obj
+
+
 def sign_class(v):
     return "ymax>0" if v > 0 else ("ymax=0" if v == 0 else "ymax<0")
 
@@ -58,8 +78,8 @@ def isect_record(inter, case):
             return [int(v) for v in col]
         if t == "tuple":
             return tuple(int(v) for v in col)
-        if t in ("int64", "int32", "float32"):
-            return np.asarray(col).astype(t)
+        if t in DTYPES:
+            return as_dtype(col, t)
         return np.asarray(col, dtype=float)
     try:
         with warnings.catch_warnings():
@@ -72,8 +92,10 @@ def isect_record(inter, case):
                 x, y = inter(p[:, 0] * unit + ox_, p[:, 1] * unit + oy_, q[:, 0] * unit + ox_, q[:, 1] * unit + oy_)
         x = (np.asarray(x, dtype=float) - ox_) / unit
         y = (np.asarray(y, dtype=float) - oy_) / unit
-        rec["ox"] = [Qc(v, 1e6) for v in x]
-        rec["oy"] = [Qc(v, 1e6) for v in y]
+        # a wild point (wrapped integer arithmetic) is a verdict: clamped so that TLC can subtract an expected
+        # coordinate (<= 100e6) from it
+        rec["ox"] = [Qc(v, 1e6, -2_000_000_000, 2_000_000_000) for v in x]
+        rec["oy"] = [Qc(v, 1e6, -2_000_000_000, 2_000_000_000) for v in y]
     except Machinery:
         raise
     except Exception as e:  # noqa
@@ -213,7 +235,7 @@ def dcf_record(cdc, case, obj=None):
     qg = lambda v: Qc(v, scale, -2_000_000_000, 2_000_000_000)     # returned values: a wild one is a verdict
 
     def call(c, sw, on=None):
-        target = on if on is not None else StandIn(c)
+        target = on if on is not None else stand_in(c, case.get("dtype"))
         with warnings.catch_warnings():
             warnings.simplefilter("ignore")
             if kind == "none":
@@ -387,6 +409,34 @@ def dcf_cases(ctx, vc, rng, lattice_polys=()):
                            swap=swap, steps_kind=kind, steps=steps, steps_type=var[2] if len(var) > 2 else "list")
 
 
+# per dtype (unit, offset) of a lattice-valued polygon (doubled lattice 0..6): the signed integer types get an extent
+# beyond half their range (max - min formed in the type wraps around), the unsigned ones values up to their top
+# (a negated / lowered value wraps), the float types quarter units
+DTYPE_FRAME = {"int8": (40.0, -120.0), "int16": (10000.0, -30000.0), "int32": (6e8, -1.8e9), "int64": (3e18, -9e18),
+               "uint8": (40.0, 0.0), "uint16": (10000.0, 0.0), "uint32": (7e8, 0.0), "uint64": (3e18, 0.0),
+               "float16": (0.25, -0.75), "float32": (0.25, -0.75), "float64": (0.25, -0.75)}
+DIAMOND = [[0, 3], [3, 0], [6, 3], [3, 6]]      # the diamond of the bug report: (-120, 0), (0, -120), (120, 0), (0, 120) as int8
+
+
+def dcf_dtype_cases(ctx, lattice_polys, idx0):
+    """the dtype of the coordinates as an input class of calculate_design_conditions: for every dtype the diamond and
+    2 (quick) / 6 (thorough) emitted lattice polygons (rotating with the seed), in the frame of the dtype, x steps
+    None / 5 / 2 / the polygon's own abscissae and the midpoints between them x swap_axis"""
+    n = ctx.pick(2, 6)
+    for k, dt in enumerate(DTYPES):
+        unit, off = DTYPE_FRAME[dt]
+        pick = [DIAMOND] + [lattice_polys[(ctx.seed * 7 + k * n + j * 5) % len(lattice_polys)] for j in range(n)]
+        for j, poly in enumerate(pick):
+            co = np.asarray(poly, dtype=float) * unit + off
+            for swap in (False, True):
+                xcol = sorted(set(float(v) for v in (co[:, 1] if swap else co[:, 0])))
+                own = xcol + [0.5 * (a + b) for a, b in zip(xcol[:-1], xcol[1:])]
+                for kind, steps in (("none", None), ("int", 5), ("int", 2), ("list", own)):
+                    yield dict(kind="dcf", src=f"lattice:{dt}", idx=idx0 + k * (n + 1) + j, dtype=dt,
+                               coords=[[float(a), float(b)] for a, b in co], swap=swap, steps_kind=kind, steps=steps,
+                               steps_type="list")
+
+
 def hist_records(cdc, case):
     """One contour object through a history of calls and coordinate changes; every call gives a
     'dcf' record judged against the coordinates the object has AT THAT MOMENT."""
@@ -438,6 +488,8 @@ def key_of(case, ycls=""):
         if case.get("src") == "random":
             return f"intersection random p={case['p']} q={case['q']} unit={case.get('unit', 1.0)} type={case.get('intype', 'float')}"
         return f"intersection lattice p={case['p']} q={case['q']} unit={case.get('unit', 1.0)} type={case.get('intype', 'float')}"
+    if k == "cover":
+        return "coverage of the coordinate dtypes"
     if k == "dcl":
         order = "asc" if case["xs"][0] < case["xs"][-1] else "desc"
         return (f"design lattice poly={case['poly']} xs={order} swap={case['swap']} "
@@ -457,6 +509,8 @@ def execute(vc, case):
         return [(isect_record(intersection, case), "", "")]
     if case["kind"] == "dcl":
         return [dcl_record(calculate_design_conditions, case) + ("",)]
+    if case["kind"] == "cover":
+        return [(dict(kind="cover", isect=case["isect"], dcf=case["dcf"]), "", "")]
     if case["kind"] == "hist":
         return hist_records(calculate_design_conditions, case)
     return [dcf_record(calculate_design_conditions, case) + ("",)]
@@ -539,6 +593,10 @@ def judge(ctx, vc, cases, label, selftest=False, chunk=50000):
             raise Machinery(f"selftest: synthetic record {r} expected rejection by {expect}, got {got}")
     for i, r in enumerate(recs):
         c = cases[owner[i]]
+        if c["kind"] == "cover":
+            if r["id"] in failing:
+                raise Machinery(f"coordinate dtypes not covered: {c}")
+            continue
         if c["kind"] == "isect":
             nontrivial = len(r["ox"]) > 0
         elif c["kind"] == "dcl":
@@ -564,7 +622,10 @@ def run(ctx):
                 "calculate_design_conditions, plus scaled / shifted copies; every 6th (quick) / 5th (thorough) lattice pair "
                 "and 3/7 of the unscaled random pairs also with the vertex sequences typed as Python int lists, int64 / "
                 "int32 / float32 arrays, tuples, one curve int and one float; every 9th / 7th lattice pair, a quarter of "
-                "the random pairs and every 8th float polygon also in units of 1e3, 1e-3, 1e-5, 1e-7, 1e-9; seeded random: integer polylines on "
+                "the random pairs and every 8th float polygon also in units of 1e3, 1e-3, 1e-5, 1e-7, 1e-9; the dtype of the coordinates "
+                "(int8 .. int64, uint8 .. uint64, float16 / float32 / float64; TLC asserts that each occurred): every 120th / 60th lattice pair and the plain random pairs once more as "
+                "typed arrays, and per dtype the diamond of the bug report + 2 / 6 emitted lattice polygons in a frame that "
+                "exhausts the type (int8: -120..120, uint8: 0..240, ...) x steps None / 5 / 2 / own abscissae and midpoints x swap_axis; seeded random: integer polylines on "
                 "0..100, star-shaped non-convex float polygons and IFORM / ISORM / direct-sampling contours of "
                 "random 2-D models x steps None / int / lists inside, outside, at vertex abscissae, integer-typed "
                 "(int list, range, int64 / int32 array, mixed, tuple), within 1-3 ulp of vertex abscissae, the polygon's "
@@ -607,6 +668,11 @@ def run(ctx):
     sc += [dict(c, unit=MAGNITUDES[k % len(MAGNITUDES)], offx=0.0, offy=0.0)
            for k, c in enumerate(cases[5::ctx.pick(9, 7)])]
     rp = list(random_polylines(rng, ctx.pick(1500, 20000)))
+    # the dtype of the coordinates (IntersectOps!CoordTypes): lattice pairs and the plain random pairs once more,
+    # typed as int8 .. uint64 / float16 .. float64 arrays (all coordinates 0..100: representable in every type)
+    sc += [dict(c, intype=DTYPES[k % len(DTYPES)]) for k, c in enumerate(cases[4::ctx.pick(120, 60)])]
+    rp += [dict(c, intype=DTYPES[(k + ctx.seed) % len(DTYPES)])
+           for k, c in enumerate([c for c in rp if "unit" not in c and "intype" not in c])]
     recs = judge(ctx, vc, cases + sc + rp, "lattice polyline pairs + random integer polylines", selftest=True)
     ctx.sample({"emitted": gen[len(gen) // 3], "record": recs[len(gen) // 3]})
     ctx.notes["lattice_polyline_pairs"] = len(gen)
@@ -633,6 +699,11 @@ def run(ctx):
             seen.add(t)
             lat.append(g["poly"])
     fc = list(dcf_cases(ctx, vc, rng, lat[::ctx.pick(16, 12)]))
+    tc = list(dcf_dtype_cases(ctx, lat, 1 + max(c["idx"] for c in fc)))
+    ctx.notes["typed_polygon_calls"] = len(tc)
+    fc += tc
+    fc.append(dict(kind="cover", isect=sorted({c["intype"] for c in sc + rp if c.get("intype") in DTYPES}),
+                   dcf=sorted({c["dtype"] for c in tc})))
     # R + V: histories on one contour object (call / assign / modify in place / call again)
     ctx.model_check("DesignCondHist", "MC_DesignCondHist_keep.cfg", expect_violation="UsesCurrent")
     gen3 = ctx.generate("DesignCondHist", ctx.pick("Gen_DesignCondHist_quick.cfg", "Gen_DesignCondHist_thorough.cfg"))
@@ -643,7 +714,7 @@ def run(ctx):
                   chunk=4000)
     ctx.sample({"case": {k: v for k, v in fc[7].items() if k != "coords"}, "record": recs3[7]})
     ctx.sample({"emitted_history": gen3[len(gen3) // 2]})
-    ctx.notes["float_polygon_calls"] = len(fc)
+    ctx.notes["float_polygon_calls"] = len(fc) - 1
     ctx.notes["object_histories"] = len(gen3)
     ctx.exhaustive = True
 
